@@ -827,7 +827,9 @@ class CompiledRouterNode:
                 )
 
                 pattern_text = _FIELD_PATTERN.sub(r'(?P<\2>.+)', escaped_segment)
-                pattern_text = '^' + pattern_text + '$'
+                # NOTE: \Z, not $: $ also matches before a trailing newline,
+                #   which would then be dropped from the field values.
+                pattern_text = '^' + pattern_text + r'\Z'
 
                 self.is_complex = True
                 self.var_pattern = re.compile(pattern_text)
